@@ -10,7 +10,7 @@ PID = "C17"
 LEAN_COMPONENT = "queue"
 PROPS_MODULE = "Haiway.Props.C17"
 ANCHORS = ["src/haiway/utils/queue.py"]
-ALPHABET = ["e1", "e2", "fin", "finerr", "cancelq", "recv", "cancelrecv", "run"]
+ALPHABET = ["e1", "e2", "fin", "finerr", "cancelq", "recv", "cancelrecv", "run", "step"]
 RULE = ("case = sequence over {enqueue one, enqueue two, finish, finish(error), cancel queue, start receive, "
         "cancel pending receive, let the loop run}, followed by a fixed drain phase (finish; receive n+3 times); "
         "quick: all sequences of length<=4 + random to length 40; thorough: all of length<=6 + random; "
@@ -65,6 +65,9 @@ def corpus():
         "e1 recv run recv run e1 run fin recv run",
         "recv run cancelrecv run e1 recv run",
         "recv run e1 fin cancelrecv run recv run recv run",
+        "e1 recv step cancelrecv run recv run",            # a receive served from the buffer, cancelled one iteration later
+        "e2 recv step cancelrecv step recv step recv run",
+        "recv step e1 step cancelrecv run recv run",
     ]
 
 
@@ -74,7 +77,7 @@ def generate(rng, tier):
         for c in itertools.product(ALPHABET, repeat=L):
             yield " ".join(c)
     n = 3000 if tier == "quick" else 120000
-    weights = [4, 2, 1, 1, 1, 5, 3, 5]
+    weights = [4, 2, 1, 1, 1, 5, 3, 4, 3]
     for _ in range(n):
         k = rng.randint(5, 40)
         yield " ".join(rng.choices(ALPHABET, weights=weights, k=k))
@@ -181,6 +184,11 @@ def run_real(case: str) -> str:
                     t.cancel()
             elif tok == "run":
                 loop.quiesce()
+            elif tok == "step":
+                # exactly one iteration of the event loop: a receive that was started takes its first step (and completes or
+                # suspends), a consumer that was woken resumes – a cancellation can land between any two iterations
+                loop.call_soon(loop.stop)
+                loop.run_forever()
             else:
                 return "bad-op"
         loop.quiesce()
